@@ -537,6 +537,19 @@ def r15_4(ctx) -> None:
                 if lt == hp and rt == rp and not can_reach_exit(cfg, succ_by_label(cfg, t, "true")) and cfg.dominates(t, cfg.exit):
                     ok = True
     if not ok:
+        # comprehension form: {name for name in <header names> if name not in <registry names>} tested for non-emptiness
+        for t in cfg.nodes:
+            if t.kind == "test" and isinstance(t.ast, ast.Name):
+                defs = [d for d in eng.flow._defs(s_).get(t.ast.id, []) if d[0] == "assign"]
+                if len(defs) == 1 and isinstance(defs[0][1], (ast.SetComp, ast.ListComp)) and len(defs[0][1].generators) == 1 and len(defs[0][1].generators[0].ifs) == 1:
+                    comp = defs[0][1]
+                    g = comp.generators[0]
+                    c0 = g.ifs[0]
+                    if isinstance(g.target, ast.Name) and norm(comp.elt) == g.target.id and isinstance(c0, ast.Compare) and len(c0.ops) == 1 and isinstance(c0.ops[0], ast.NotIn) \
+                            and norm(c0.left) == g.target.id and _set_source(eng, s_, g.iter) == hp and _set_source(eng, s_, c0.comparators[0]) == rp \
+                            and not can_reach_exit(cfg, succ_by_label(cfg, t, "true")) and cfg.dominates(t, cfg.exit):
+                        ok = True
+    if not ok:
         # loop form
         for l in [x for x in cfg.nodes if x.kind == "loop" and norm(x.ast.iter) in (hp, f"{hp}.keys()")]:  # type: ignore[union-attr]
             tv = norm(l.ast.target)  # type: ignore[union-attr]
